@@ -165,7 +165,7 @@ package stree
 //@   ensures  [C01] keys: forall k int :: {inK(n.right, k)} inK(n.right, k) <==> old(inK(n.right, k))
 //@   ensures  [C01] desc: forall y ref :: {inD(n.right, y)} inD(n.right, y) <==> old(inD(n.right, y))
 //@   ensures  [C01] reps: forall k int :: {n.right.rep[k]} inK(n.right, k) ==> n.right.rep[k] == old(n.right.rep[k])
-//@   ensures  [C01] chain: chainOK(n.right, sq, m - count - 1)
+//@   ensures  [C01] chain: chainOK(n.right, sq, m - count)
 //@   ensures  [C01] values: forall y *node[T] :: {y.X} old(allocated(y)) ==> y.X == old(y.X)
 //@   ensures  [C01] frame: forall y *node[T] :: {y.left} {y.right} {y.X} {y.keys} {y.desc} {y.cnt} {y.rep} old(allocated(y)) && !old(inD(n.right, y)) && y != n ==> sameNode(y)
 //@   modifies every(n.left), every(n.right), every(n.keys), every(n.desc), every(n.cnt), every(n.rep)
